@@ -5,8 +5,8 @@ R = os.path.dirname(os.path.dirname(os.path.abspath(__file__)))
 props = [json.loads(l) for l in open(os.path.join(R, "properties.jsonl"))]
 
 TEXT = {
- "C01": ("Theorems (Props/C01): conditional SMC with the retained path in slot 0 leaves the level-T target invariant for every number of particles, every number of steps and every symmetric adaptive resampling rule (csmc_invariant); drawing the data order from u(x,.) and then applying a kernel invariant for pi*u(.,sigma) leaves pi invariant (aux_mixture_invariant); further theorems listed in the evidence. The executable Lean model of ParticleGibbsTreeSampler.sample_tree (and of the burn-in SMC) is compared, transition row by transition row, with the exact kernel of the real code (every outcome of every draw enumerated) for the run-command wiring and the library wiring; an independent oracle checks pi K = pi to 1e-10 on every enumerated configuration.",
-         "Lean theorem (CSMC invariance) + exact-kernel correspondence"),
+ "C01": ("Theorems (Props/C01): pg_invariant - for every data set with positive likelihoods, alpha > 0, outlier proposal probability in [0,1), each of the three proposals, kernel with a permutation distribution, every number of particles and every resampling threshold, the executable Lean model SMC.pgStep of ParticleGibbsTreeSampler.sample_tree satisfies sum_x pOne x * P(pgStep x = y) = pOne y over the complete trees of the data set. Built from: csmc_invariant and csmc_invariant_final_resample (abstract conditional SMC, retained path in slot 0, any symmetric adaptive resampling rule, hypotheses asked of the T steps performed; without and with a resampling step in front of the final draw - the latter is the code's schedule for a single data point), pg_spec_valid (PhyClone's partial trees along a fixed order, Proposal.table, pMarg*pdf / pOne*pdf targets, removal of the last-placed data point as parent satisfy those hypotheses, from the C08 theorems), reachable_iff_order (a tree is reached along sigma iff sigma is one of its compatible orders) with C09 and aux_mixture_invariant (pg_invariant_abstract), and the identification of the list-based executable sweep (sorted multinomial ancestors, weights from 1/N, lookupQ, retained path by restriction) with the abstract kernel (pg_csmc_exec, pg_step_exec). The model is compared, transition row by transition row, with the exact kernel of the real code (every outcome of every draw enumerated) for the run-command wiring and the library wiring; an independent oracle checks pi K = pi to 1e-10 on every enumerated configuration.",
+         "Lean theorem (particle-Gibbs invariance of the executable model) + exact-kernel correspondence"),
  "C02": ("Theorems for every forest, sample and grid index: the root likelihood vector equals the prior times the brute-force sum over all feasible index assignments; it is positive for positive data and independent of sibling order (exact arithmetic). Correspondence: every clone's cached vectors and the root vector of real trees vs the model and vs an independent brute force; float clauses (floor 1e-100, never below exact, FFT switch at 1000, finiteness) by comparison with extended precision.",
          "Lean theorem (recursion = brute-force marginal) + differential check"),
  "C03": ("Theorems: both joint densities are invariant under sibling reordering, reordering inside clones and of the outlier list; the canonical form is density-preserving and a complete tree key (treeKey_iff); densities are positive (finite logs) for positive data; the outlier marginal is the single-clone marginal. Correspondence: log_p / log_p_one / fused variant / TreeHolder on trees realised through six construction histories vs the model; oracle = independent transcription of the property's formula; ==/hash vs (clades, outliers).",
